@@ -310,6 +310,10 @@ class Emitter:
             return const + 'struct ' + q2
         if q2 in self.p.aliases:
             return const + self.ctype(self.p.aliases[q2]['type'])
+        if re.fullmatch(r'(std::)?(__cxx11::)?(string|basic_string<char>)', q) or q == 'std::string':
+            self.hit('std::string -> struct verif_string (fixed-capacity character buffer; assumed binding)')
+            self.bindings_used['std::string'] = ('string', '')
+            return const + 'struct verif_string'
         if q in ('std::chrono::duration<long, std::ratio<1, 1000>>::rep',):
             return const + 'int64_t'
         raise Unsupported('type ' + q)
@@ -585,6 +589,16 @@ class Emitter:
                 if r['name'] == 'operator[]' and re.match(r'(const )?std::array<', a0t):
                     self.hit('std::array::operator[] -> array subscript')
                     return '%s[%s]' % (self.e(n['inner'][1]), self.e(n['inner'][2]))
+                if 'basic_string<char>' in a0t or a0t.endswith('std::string'):
+                    if r['name'] == 'operator[]':
+                        self.hit('std::string::operator[] -> verif_str_at (asserts index <= size)')
+                        return '(*verif_str_at(%s, %s))' % (self.addr_of(self.e(n['inner'][1])), self.e(n['inner'][2]))
+                    if r['name'] == 'operator+=' and qt(n['inner'][2]['type']).endswith('value_type') or \
+                            (r['name'] == 'operator+=' and qt(n['inner'][2]['type']) == 'char'):
+                        if ctx not in ('discard',):
+                            raise Unsupported('value of std::string += used')
+                        self.hit('std::string::operator+=(char) -> verif_str_push (asserts capacity)')
+                        return 'verif_str_push(%s, %s)' % (self.addr_of(self.e(n['inner'][1])), self.e(n['inner'][2]))
                 raise Unsupported('operator call %s on %s in %s' % (r['name'], a0t, self.cur_fn))
             info = self.p.funcs[key]
             if info['rec'] is not None and info['node']['kind'] == 'CXXMethodDecl':
@@ -618,6 +632,11 @@ class Emitter:
         return '%s(%s)' % (self.fname(key), ', '.join([obj] + self.args(info['node'], n['inner'][1:])))
 
     def library_member_call(self, me, n):
+        bt = qt(me['inner'][0]['type'])
+        if ('basic_string<char>' in bt or bt.endswith('std::string')) and me.get('name') in ('size', 'length') and len(n['inner']) == 1:
+            self.hit('std::string::size -> .n')
+            bs = self.e(me['inner'][0])
+            return '(%s)->n' % self.addr_of(bs)
         raise Unsupported('member call to library method %s in %s' % (me.get('name'), self.cur_fn))
 
     def e_MemberExpr(self, n):
@@ -642,7 +661,27 @@ class Emitter:
             return self.e(inner[0])
         return self.construct(n)
 
+    def str_from(self, n):
+        k = n['kind']
+        if k in ('ImplicitCastExpr', 'ParenExpr'):
+            return self.str_from(n['inner'][0])
+        if k == 'StringLiteral':
+            v = n['value']
+            body = json.loads(v)
+            if len(body) > 15:
+                raise Unsupported('string literal longer than the verif_string capacity')
+            return '((struct verif_string){%s, %d})' % (v, len(body))
+        if k == 'ConditionalOperator':
+            c, a, b = n['inner']
+            return '(%s ? %s : %s)' % (self.e(c), self.str_from(a), self.str_from(b))
+        raise Unsupported('std::string constructed from a non-literal in ' + str(self.cur_fn))
+
     def construct(self, n):
+        ct = n.get('ctorType', {}).get('qualType', '')
+        if 'basic_string' in qt(n['type']) or qt(n['type']).endswith('std::string'):
+            if ct.startswith('void (const char *'):
+                self.hit('std::string(const char*) from a literal -> compound literal')
+                return self.str_from(n['inner'][0])
         raise Unsupported('constructor call %s in %s' % (n.get('ctorType', {}).get('qualType'), self.cur_fn))
 
     e_CXXTemporaryObjectExpr = e_CXXConstructExpr
@@ -743,7 +782,11 @@ class Emitter:
             return p + 'continue;\n'
         if k == 'NullStmt':
             return p + ';\n'
-        if k in ('CXXTryStmt', 'CXXThrowExpr', 'GotoStmt', 'LabelStmt', 'CoreturnStmt'):
+        if k == 'CXXThrowExpr' or (k == 'ExprWithCleanups' and n['inner'][0]['kind'] == 'CXXThrowExpr'):
+            self.hit('throw E -> verif_throw() (obligation: not reached; E not evaluated)')
+            self.bindings_used['throw'] = ('throw', '')
+            return p + 'verif_throw();\n'
+        if k in ('CXXTryStmt', 'GotoStmt', 'LabelStmt', 'CoreturnStmt'):
             raise Unsupported('statement kind %s in %s' % (k, self.cur_fn))
         hook = self.hooks.get('stmt')
         if hook:
@@ -1019,7 +1062,13 @@ class Emitter:
         out = []
         for key, (nm, t) in self.bindings_used.items():
             st = sanitize(t)
-            if nm == 'max':
+            if nm == 'string':
+                out.append('struct verif_string { char s[16]; size_t n; };\n'
+                           'static inline const char *verif_str_at(const struct verif_string *x, size_t i) { __CPROVER_assert(i <= x->n && i < 16, "std::string index within size"); return &x->s[i]; }\n'
+                           'static inline void verif_str_push(struct verif_string *x, char c) { __CPROVER_assert(x->n < 15, "verif_string capacity"); x->s[x->n] = c; x->n++; x->s[x->n] = 0; }\n')
+            elif nm == 'throw':
+                out.append('static inline void verif_throw(void) { __CPROVER_assert(0, "no exception is thrown"); __CPROVER_assume(0); }\n')
+            elif nm == 'max':
                 out.append('static inline %s verif_max_%s(%s a, %s b) { return a < b ? b : a; }\n' % (t, st, t, t))
             elif nm == 'min':
                 out.append('static inline %s verif_min_%s(%s a, %s b) { return b < a ? b : a; }\n' % (t, st, t, t))
